@@ -299,6 +299,27 @@ func ruleSwapOrder(c *Ctx) {
 		}
 	}
 	c.check(okFalse, "shrinking-cleared-in-epilogue", fn.Decl.Pos(), "shrinking is cleared only in the deferred epilogue", "shrinking is cleared outside the deferred epilogue: capture can stop before the swap")
+	// the epilogue belongs to the invocation that set the flag: the defer that clears it is registered after
+	// (dominated by) the store of true, so an invocation that bails out at the 'already shrinking' guard
+	// does not clear the flag and the shrink log of the rewrite that is running
+	owned := len(trues) == 1
+	if owned {
+		tl := outer.LocOf(trues[0])
+		for _, d := range outer.Find(func(n ast.Node) bool { _, ok := n.(*ast.DeferStmt); return ok }) {
+			ds := d.Node.(*ast.DeferStmt)
+			clears := false
+			ast.Inspect(ds, func(x ast.Node) bool {
+				if as, ok := x.(*ast.AssignStmt); ok && len(as.Lhs) == 1 && selField(info, as.Lhs[0]) == shrinking {
+					clears = true
+				}
+				return true
+			})
+			if clears && !(tl.Valid() && outer.Dominates(tl, d)) {
+				owned = false
+			}
+		}
+	}
+	c.check(owned, "shrinking-cleared-by-owner", fn.Decl.Pos(), "the clearing epilogue is registered only after this invocation set shrinking", "the epilogue that clears shrinking/shrinklog is pending on paths that did not set the flag (the 'already shrinking' early return): a second AOFSHRINK ends the capture of the running one and writes acknowledged during it are missing after restart")
 }
 
 func ruleLiveNeverAbsent(c *Ctx) {
